@@ -569,6 +569,19 @@ pub(crate) async fn exec_model_trace_world(t: Trace, prop: &'static str, w: Worl
                     }
                 }
                 // coverage
+                {
+                    let mut sk = String::new();
+                    for (n, u) in &m.users {
+                        sk.push_str(&format!("{}:{}{}{:?};", n, u.modes.changes(), u.away.is_some() as u8, u.chans));
+                    }
+                    for (n, c) in &m.chans {
+                        sk.push_str(&format!("{}:{:?}{}{}{}{}{}{:?}{:?}{}{}{};", n, c.members, c.fi as u8, c.fm as u8, c.fs as u8, c.ft as u8, c.fnn as u8, c.key, c.limit, c.ban.len(), c.exc.len(), c.invex.len()));
+                    }
+                    for cn in &m.conns {
+                        sk.push_str(&format!("{}{}{}{}|", cn.alive as u8, cn.registered as u8, cn.nick.is_some() as u8, cn.cap_neg as u8));
+                    }
+                    out.state_keys.push(hash_key(&[&sk]));
+                }
                 let nu = std::cmp::min(m.users.len(), 4).to_string();
                 let nc = std::cmp::min(m.chans.len(), 3).to_string();
                 for l in &labels {
